@@ -629,6 +629,61 @@ def gen_boundary(n, seed, watch=False):
     return out
 
 
+def gen_c11_deep(rng):
+    """Trees 30-64 levels deep that branch at every level (keys 1^i 2 and 1^i 3 next to the path 1^D): an iterator
+    positioned deep in the tree holds one pending set of siblings per level (more than the 32 the implementation
+    keeps on its stack).  LowerBound/Prefix/Iterator at various depths, each read several times (All, Next on the
+    same iterator) and re-read after later writes."""
+    ps = PartScript(rng)
+    D = rng.choice([30, 31, 32, 33, 34, 40, 64])
+    sib = rng.choice([[2], [2, 3], [2, 3], [0, 2]])
+    keys = [[1] * D]
+    for i in range(D):
+        for b in sib:
+            if rng.random() < 0.95:
+                keys.append([1] * i + [b])
+    t0 = ps.new_tree_id()
+    ps.add(op="new", t=t0, ro=rng.random() < 0.3)
+    x = ps.new_txn_id()
+    ps.add(op="begin", x=x, t=t0, lin=True)
+    order = list(keys)
+    rng.shuffle(order)
+    for k in order:
+        ps.add(op="insert", x=x, k=k, v=rng.randint(1, 9), w=0)
+    head = ps.new_tree_id()
+    ps.add(op="commitnotify", x=x, t=head)
+    its = []
+    for _ in range(rng.randint(2, 4)):
+        d = rng.choice([D, D - 1, D // 2, 33, 32, 1])
+        d = max(0, min(D, d))
+        f = ps.new_iter_id()
+        r = rng.random()
+        if r < 0.6:
+            ps.add(op="lowerbound", s=tree_src(head), k=[1] * d + rng.choice([[], [0], [1]]), f=f)
+        elif r < 0.8:
+            ps.add(op="prefix", s=tree_src(head), k=[1] * d, f=f, w=0)
+        else:
+            ps.add(op="iterator", s=tree_src(head), f=f)
+            for _ in range(rng.randint(0, 3)):
+                ps.add(op="next", f=f)
+        its.append(f)
+        ps.add(op="iterall", f=f)
+        if rng.random() < 0.5:
+            ps.add(op="next", f=f)
+    # a later write must not disturb the iterators either
+    x = ps.new_txn_id()
+    ps.add(op="begin", x=x, t=head, lin=True)
+    for k in rng.sample(keys, 3):
+        ps.add(op=rng.choice(["insert", "delete"]), x=x, k=k, v=rng.randint(1, 9), w=0)
+    nt = ps.new_tree_id()
+    ps.add(op="commitnotify", x=x, t=nt)
+    for f in its:
+        ps.add(op="iterall", f=f)
+        ps.add(op="next", f=f)
+        ps.add(op="iterall", f=f)
+    return ps.ops
+
+
 def gen_c12_bigtxn(rng):
     """Transactions that change many keys at once (the set of channels to close grows past 64 entries, the
     threshold at which the implementation stops reusing the set): watches on some of the keys and prefixes, one
@@ -684,5 +739,5 @@ def generate(kind, n, seed):
     if kind == "boundaryw":
         return gen_boundary(n, seed, watch=True)
     rng = random.Random(seed)
-    fn = {"c11": gen_c11, "c12": gen_c12, "c12inner": gen_c12_inner, "c12dense": gen_c12_dense, "c12bigtxn": gen_c12_bigtxn}[kind]
+    fn = {"c11": gen_c11, "c12": gen_c12, "c12inner": gen_c12_inner, "c12dense": gen_c12_dense, "c12bigtxn": gen_c12_bigtxn, "c11deep": gen_c11_deep}[kind]
     return [fn(rng) for _ in range(n)]
